@@ -452,6 +452,14 @@ class Evaluator:
             return lambda a: tuple(reversed(a))
         if name == "SeqEq":
             return lambda a, b: tuple(map(id, a)) == tuple(map(id, b))
+        if name.startswith("Kids<"):
+            key = [kk for kk, v in L._LEVEL.items() if v[0].name() == name][0]
+            children, llen, litem = (self.heap_fn(n) for n in key)
+
+            def kids(n):
+                c = children(n)
+                return tuple(litem(c, i) for i in range(llen(c))) if c is not None else ()
+            return kids
         if name == "FiltCb":
             return lambda s, cb, i: tuple(e for e in s[:max(i, 0)] if cb(e))
         if name.startswith("FiltK<"):
